@@ -33,6 +33,8 @@ type Alpha struct {
 	Ticks     []int    // deviation: clock ticks (seconds)
 	FreeTicks []int    // always-enabled clock ticks (seconds)
 	Restart   bool     // deviation: controller restart (fresh in-memory state)
+	// ERSFaults: deviation variants of R_ers with one injected fault each ("<kind>:<text>", see Apply)
+	ERSFaults []string
 	// OnlyERS: offer R_ers only for replica sets whose name is listed (empty = all)
 	OnlyERS []string
 	// OnlyEDS restricts user/deviation events to these ExtendedDaemonSets (ns/name); empty = all
@@ -182,6 +184,14 @@ func (a *Alpha) Enabled(s *State) []Event {
 	}
 	for _, t := range a.Ticks {
 		evs = append(evs, Event{K: "tick", N: t, Dev: dev})
+	}
+	for _, r := range s.ERSs() {
+		if len(a.OnlyERS) > 0 && !contains(a.OnlyERS, r.Name) {
+			continue
+		}
+		for _, f := range a.ERSFaults {
+			evs = append(evs, Event{K: "R_ers", A: nn(r), B: "fault:" + f, Dev: dev})
+		}
 	}
 	if a.Restart {
 		evs = append(evs, Event{K: "restartctl", Dev: dev})
